@@ -210,6 +210,8 @@ var literals = []string{
 	"\\@^\\[=@/5q  :![0\"3", "A#Y#B1\\*0*Y\r0:C>/@",
 	"A^A AA\rA*1\r>A1", "aa aaaaaA1A\u0080", "^1A@AA1Aÿ", "@@@@@@@@a   @@@@@@", "@@@@@@@@@é\r\r\r\r\r\réé",
 	"AAAAAAAAA", "HELLO", "Hello World", "123456", "ABC<>ABC<>ABC", "*\r>*\r>*\r>",
+	// escape-like sequences (conventions a reader or writer might "understand")
+	`\\\\fileserver\\share\\report.txt`, `a\\\\b`, `\\n`, `\\000026`, `\\\\000026`, `]d1`, `]d2x`, `%25`, `%%`, `%5C%5C`, `\\u0041`, `&amp;`, `&#65;`, `\\"`, `$$`, `${x}`, `\\\\\\\\`, `\\\\\\`, `a\\`, `~~`, `~d029`, `~1`, `^^`, "\x1d\x1d", "\x1dA\x1d", "\x1e\x04", "[)>\x1e", "\x00\x00", "\t\t", "\r\n\r\n",
 }
 
 func runRegression() {
